@@ -101,3 +101,211 @@ pub(crate) fn full_u16_wrappers_identity() {
     assert!(u16::from(Qclass::from(Class::from(v))) == v);
     assert!(u16::from(Class::from(Qclass::from(v))) == v);
 }
+
+// ---------------------------------------------------------------------
+// Text forms.  Reference tables written from the IANA registry / RFC 1035
+// section 3.2.2-3.2.5, RFC 3596, RFC 2782, RFC 6891, RFC 8945, RFC 1995,
+// RFC 2136 - not from the code.
+// ---------------------------------------------------------------------
+
+const TYPE_TABLE: [(&str, u16); 20] = [
+    ("A", 1), ("NS", 2), ("MD", 3), ("MF", 4), ("CNAME", 5), ("SOA", 6), ("MB", 7), ("MG", 8),
+    ("MR", 9), ("NULL", 10), ("WKS", 11), ("PTR", 12), ("HINFO", 13), ("MINFO", 14), ("MX", 15),
+    ("TXT", 16), ("AAAA", 28), ("SRV", 33), ("OPT", 41), ("TSIG", 250),
+];
+const QTYPE_ONLY_TABLE: [(&str, u16); 6] =
+    [("IXFR", 251), ("AXFR", 252), ("MAILB", 253), ("MAILA", 254), ("ANY", 255), ("*", 255)];
+const CLASS_TABLE: [(&str, u16); 3] = [("IN", 1), ("CH", 3), ("HS", 4)];
+const QCLASS_ONLY_TABLE: [(&str, u16); 3] = [("NONE", 254), ("ANY", 255), ("*", 255)];
+
+/// Longest text the harnesses build ("TYPE" + 6 digits, "CLASS" + 5 digits).
+const MAXTXT: usize = 10;
+
+/// A small fixed text buffer (no allocation, so CBMC stays small).
+pub(crate) struct Txt {
+    b: [u8; 16],
+    n: usize,
+}
+
+impl Txt {
+    fn new() -> Self {
+        Txt { b: [0; 16], n: 0 }
+    }
+    fn push(&mut self, c: u8) {
+        assert!(self.n < 16);
+        self.b[self.n] = c;
+        self.n += 1;
+    }
+    /// All octets pushed are ASCII, so this is valid UTF-8.
+    fn as_str(&self) -> &str {
+        unsafe { core::str::from_utf8_unchecked(&self.b[..self.n]) }
+    }
+}
+
+impl core::fmt::Write for Txt {
+    fn write_str(&mut self, s: &str) -> core::fmt::Result {
+        for &c in s.as_bytes() {
+            if self.n >= 16 {
+                return Err(core::fmt::Error);
+            }
+            self.b[self.n] = c;
+            self.n += 1;
+        }
+        Ok(())
+    }
+}
+
+/// `word` with every ASCII letter put in an arbitrary (symbolic) case.
+fn any_case(out: &mut Txt, word: &[u8]) {
+    for &c in word {
+        let lower: bool = kani::any();
+        out.push(if lower { c.to_ascii_lowercase() } else { c.to_ascii_uppercase() });
+    }
+}
+
+/// Appends 1..=max_digits symbolic decimal digits (leading zeros allowed) and
+/// returns their value.
+fn any_decimal(out: &mut Txt, max_digits: usize) -> u32 {
+    let k: usize = kani::any();
+    kani::assume(1 <= k && k <= max_digits);
+    let mut value: u32 = 0;
+    let mut i = 0;
+    while i < max_digits {
+        if i < k {
+            let d: u8 = kani::any();
+            kani::assume(d <= 9);
+            out.push(b'0' + d);
+            value = value * 10 + d as u32;
+        }
+        i += 1;
+    }
+    value
+}
+
+fn is_ok_type(r: Result<Type, &'static str>, code: u16) -> bool {
+    match r {
+        Ok(t) => u16::from(t) == code,
+        Err(_) => false,
+    }
+}
+fn is_ok_class(r: Result<Class, &'static str>, code: u16) -> bool {
+    match r {
+        Ok(t) => u16::from(t) == code,
+        Err(_) => false,
+    }
+}
+fn is_ok_qtype(r: Result<Qtype, &'static str>, code: u16) -> bool {
+    match r {
+        Ok(t) => u16::from(t) == code,
+        Err(_) => false,
+    }
+}
+fn is_ok_qclass(r: Result<Qclass, &'static str>, code: u16) -> bool {
+    match r {
+        Ok(t) => u16::from(t) == code,
+        Err(_) => false,
+    }
+}
+
+// ---- (i) every mnemonic, in every mix of upper and lower case ----------
+
+/// [C17.mnemonic_ci] every TYPE mnemonic in every case mix parses to its code.
+/// Complete: the domain (20 mnemonics x all 2^len case masks) is covered.
+#[kani::proof]
+#[kani::unwind(8)]
+pub(crate) fn full_type_mnemonic_any_case() {
+    let i: usize = kani::any();
+    kani::assume(i < TYPE_TABLE.len());
+    let (word, code) = TYPE_TABLE[i];
+    let mut t = Txt::new();
+    any_case(&mut t, word.as_bytes());
+    assert!(is_ok_type(Type::from_str(t.as_str()), code));
+}
+
+/// [C17.mnemonic_ci] CLASS mnemonics, every case mix.
+#[kani::proof]
+#[kani::unwind(8)]
+pub(crate) fn full_class_mnemonic_any_case() {
+    let i: usize = kani::any();
+    kani::assume(i < CLASS_TABLE.len());
+    let (word, code) = CLASS_TABLE[i];
+    let mut t = Txt::new();
+    any_case(&mut t, word.as_bytes());
+    assert!(is_ok_class(Class::from_str(t.as_str()), code));
+}
+
+/// [C17.mnemonic_ci] QTYPE mnemonics (its own six and the 20 TYPE ones), every case mix.
+#[kani::proof]
+#[kani::unwind(8)]
+pub(crate) fn full_qtype_mnemonic_any_case() {
+    let own: bool = kani::any();
+    let i: usize = kani::any();
+    let (word, code) = if own {
+        kani::assume(i < QTYPE_ONLY_TABLE.len());
+        QTYPE_ONLY_TABLE[i]
+    } else {
+        kani::assume(i < TYPE_TABLE.len());
+        TYPE_TABLE[i]
+    };
+    let mut t = Txt::new();
+    any_case(&mut t, word.as_bytes());
+    assert!(is_ok_qtype(Qtype::from_str(t.as_str()), code));
+}
+
+/// [C17.mnemonic_ci] QCLASS mnemonics (its own three and the CLASS ones), every case mix.
+#[kani::proof]
+#[kani::unwind(8)]
+pub(crate) fn full_qclass_mnemonic_any_case() {
+    let own: bool = kani::any();
+    let i: usize = kani::any();
+    let (word, code) = if own {
+        kani::assume(i < QCLASS_ONLY_TABLE.len());
+        QCLASS_ONLY_TABLE[i]
+    } else {
+        kani::assume(i < CLASS_TABLE.len());
+        CLASS_TABLE[i]
+    };
+    let mut t = Txt::new();
+    any_case(&mut t, word.as_bytes());
+    assert!(is_ok_qclass(Qclass::from_str(t.as_str()), code));
+}
+
+// ---- (ii) RFC 3597 TYPEnnn / CLASSnnn for every 16-bit value ------------
+
+/// [C17.rfc3597] "TYPE" (any case) + 1..=6 decimal digits (leading zeros
+/// allowed) parses to the value iff it fits 16 bits - in particular for every
+/// n in 0..=65535 the canonical `TYPEn` parses to n.  Same through Qtype.
+#[kani::proof]
+#[kani::unwind(8)]
+pub(crate) fn full_type_rfc3597_every_value() {
+    let mut t = Txt::new();
+    any_case(&mut t, b"TYPE");
+    let v = any_decimal(&mut t, 6);
+    let r = Type::from_str(t.as_str());
+    let q = Qtype::from_str(t.as_str());
+    if v <= 65535 {
+        assert!(is_ok_type(r, v as u16));
+        assert!(is_ok_qtype(q, v as u16));
+    } else {
+        assert!(r.is_err());
+        assert!(q.is_err());
+    }
+}
+
+/// [C17.rfc3597] the same for "CLASS" + 1..=5 digits, through Class and Qclass.
+#[kani::proof]
+#[kani::unwind(8)]
+pub(crate) fn full_class_rfc3597_every_value() {
+    let mut t = Txt::new();
+    any_case(&mut t, b"CLASS");
+    let v = any_decimal(&mut t, 5);
+    let r = Class::from_str(t.as_str());
+    let q = Qclass::from_str(t.as_str());
+    if v <= 65535 {
+        assert!(is_ok_class(r, v as u16));
+        assert!(is_ok_qclass(q, v as u16));
+    } else {
+        assert!(r.is_err());
+        assert!(q.is_err());
+    }
+}
